@@ -235,6 +235,11 @@ func init() {
 			hw := &m.E{K: "hash", KS: []*m.E{m.EStr(w)}, A: []*m.E{m.EStr("v-" + w)}}
 			forms = append(forms, m.EAttr(hw, w), m.EBin("~", m.EAttr(hw, w), m.EStr("!")), m.EBin("in", m.EAttr(hw, w), m.EArr(m.EStr("v-"+w))))
 		}
+		// the same words written bare as hash keys are names, too
+		for _, w := range []string{"none", "null", "true", "false"} {
+			hb := &m.E{K: "hash", KS: []*m.E{m.EName(w), m.EName("other")}, A: []*m.E{m.EStr("v-" + w), m.EStr("o")}}
+			forms = append(forms, m.EAttr(hb, w), m.EIdx(hb, m.EStr(w)), m.EBin("~", m.EAttr(hb, w), m.EAttr(hb, "other")))
+		}
 		for _, hay := range []string{"abc", "", "a b"} {
 			for _, nd := range []string{"a", "bc", "x", "", "abc", " "} {
 				forms = append(forms, m.EBin("in", m.EStr(nd), m.EStr(hay)), m.EBin("not in", m.EStr(nd), m.EStr(hay)))
